@@ -89,6 +89,16 @@ def c11_e2e_case(r, ty=None, frag=None, rel=None, nops=None):
 
 
 CORPUS = [
+    # the exemplar of the seeded defect seed_C11_c (scratch key-member list shared by all pending writers): two writers of
+    # one participant blocked at once on the same key; the later one's pending sample must keep the handle of its key
+    ["config frag=1344", "participant P1", "participant P2", "publisher pub P1", "subscriber sub P2",
+     "topic ta0 P1 T0 ki", "topic tb0 P2 T0 ki", "topic ta1 P1 T1 ki", "topic tb1 P2 T1 ki",
+     "reader r0 sub tb0 reliability=reliable history=keep_all", "reader r1 sub tb1 reliability=reliable history=keep_all",
+     "writer w0 pub ta0 reliability=reliable history=keep_last:1 max_blocking=20000000000",
+     "writer w1 pub ta1 reliability=reliable history=keep_last:1 max_blocking=20000000000",
+     "drop-if ACKNACK user", "write w0 9 1", "write w1 9 1", "write-bg w0 9 2 tag=b0", "write-bg w1 9 2 tag=b1",
+     "advance 100000000", "take r1", "clear-faults", "advance 450000000", "join b0", "join b1", "lookup w0 9", "lookup w1 9",
+     "advance 450000000", "take r0", "take r1"],
     # the exemplar of the seeded defect m_C11/C11_b: key not first, one sample below and one above the fragment size
     ["config frag=64", "participant P1", "participant P2", "topic t1 P1 T bk", "topic t2 P2 T bk", "publisher pub P1",
      "subscriber sub P2", "writer w pub t1 reliability=reliable history=keep_all",
@@ -109,15 +119,73 @@ CORPUS = [
 ]
 
 
+def c11_e2e_blocked_case(r, same_type=None):
+    """several writers of ONE participant blocked at once (writer_methods.rs process_pending_write_samples walks all
+    writers with a pending sample in one pass): 2-3 RELIABLE KEEP_LAST(1) writers, acknowledgements withheld, the first
+    write of every writer is accepted, the second one of the same instance blocks in the background; then the
+    acknowledgements flow again, the calls are joined, and lookup / register on the writers and take on the readers
+    show the handles"""
+    nw = r.range(2, 3)
+    same_type = r.chance(3, 4) if same_type is None else same_type
+    base = r.choice(["ki", "bk", "kk", "kb"])
+    types = [base if same_type else r.choice(["ki", "bk", "kk"]) for _ in range(nw)]
+    one_topic = same_type and r.chance(1, 3)
+    frag = r.choice([64, 256, 1344])
+    lines = [f"config frag={frag}", "participant P1", "participant P2", "publisher pub P1", "subscriber sub P2"]
+    if r.chance(1, 3):
+        lines.insert(4, "publisher pub2 P1")
+    pubs = ["pub"] + (["pub2"] if "publisher pub2 P1" in lines else [])
+    topics = []
+    for i in range(nw):
+        if one_topic and i > 0:
+            topics.append(topics[0])
+            continue
+        lines += [f"topic ta{i} P1 T{i} {types[i]}", f"topic tb{i} P2 T{i} {types[i]}"]
+        topics.append(i)
+    for i in sorted(set(topics)):
+        lines.append(f"reader r{i} sub tb{i} reliability=reliable history=keep_all")
+    for i in range(nw):
+        lines.append(f"writer w{i} {r.choice(pubs)} ta{topics[i]} reliability=reliable history=keep_last:1 max_blocking=20000000000")
+    lines.append("drop-if ACKNACK user")
+    keys = [r.choice([9, 9, 1, 7, 300, -1]) for _ in range(nw)]
+    if r.chance(1, 2):
+        keys = [keys[0]] * nw
+    def val(ty):
+        return str(r.range(1, 9)) if ty == "ki" else value_token(r, ty, frag)
+    for i in range(nw):
+        lines.append(f"write w{i} {keys[i]} {val(types[i])}")
+    order = r.shuffle(list(range(nw)))
+    for i in order:
+        lines.append(f"write-bg w{i} {keys[i]} {val(types[i])} tag=b{i}")
+    if r.chance(1, 2):
+        lines.append(f"advance {r.choice([1000000, 60000000, 250000000])}")
+    if r.chance(1, 3):
+        lines.append(f"take r{topics[0]}")
+    lines += ["clear-faults", "advance 450000000"]
+    for i in r.shuffle(list(range(nw))):
+        lines.append(f"join b{i}")
+    for i in range(nw):
+        lines.append(f"{r.choice(['lookup', 'register'])} w{i} {keys[i]}")
+        if r.chance(1, 3):
+            lines.append(f"write w{i} {keys[i] + 1} {val(types[i])}")
+            lines.append(f"lookup w{i} {keys[i] + 1}")
+    lines.append("advance 450000000")
+    for i in sorted(set(topics)):
+        lines.append(f"take r{i}")
+    return Case(lines, {"family": "blocked", "types": types, "frag": frag})
+
+
 def c11_e2e_cases(rng, tier):
     n = 60 if tier == "quick" else 600
-    cases = [Case(list(c), {"ty": c[3].split()[-1], "frag": int(c[0].split("=")[1])}) for c in CORPUS]
+    cases = [Case(list(c), {"frag": int(c[0].split("=")[1])}) for c in CORPUS]
     # every keyed type at every fragment size, both reliabilities, then random ones
     for ty in ("bk", "kk"):
         for f in FRAGS:
             cases.append(c11_e2e_case(rng, ty=ty, frag=f, rel="reliable" if (f // 8) % 2 else "best_effort"))
     for _ in range(n):
         cases.append(c11_e2e_case(rng))
+    for k in range(n // 2):
+        cases.append(c11_e2e_blocked_case(rng, same_type=True if k < 6 else None))
     return cases
 
 
@@ -129,20 +197,47 @@ def _ty_of(case):
     return None
 
 
+def _layout(case):
+    """names of the scenario: topic object -> (topic name, type); writer / reader -> (topic name, type)"""
+    topics, writers, readers = {}, {}, {}
+    for l in case.lines:
+        t = [x for x in l.split() if "=" not in x]
+        if t[:1] == ["topic"] and len(t) >= 5:
+            topics[t[1]] = (t[3], t[4])
+        elif t[:1] == ["writer"] and len(t) >= 4 and t[3] in topics:
+            writers[t[1]] = topics[t[3]]
+        elif t[:1] == ["reader"] and len(t) >= 4 and t[3] in topics:
+            readers[t[1]] = topics[t[3]]
+    return topics, writers, readers
+
+
 def c11_e2e_oracle(case, out):
     """violations (list of dicts with `what`, `at`, `cause`=None) of: reader handle = writer handle for the same key;
-    equal keys share a handle, different keys do not; handles have the expected byte layout; every written sample is
-    presented (a reader that cannot derive the handle skips the change)."""
-    ty = _ty_of(case)
+    equal keys share a handle, different keys do not; handles have the expected byte layout; the writer's
+    register / lookup answer is that handle; every written sample is presented (a reader that cannot derive the handle
+    skips the change) and no extra instance appears at a reader. Any number of writers / readers / topics; a
+    `write-bg … tag=<t>` / `join <t>` pair is one write."""
+    _, writers, readers = _layout(case)
     viol = []
-    whandle = {}          # id -> handle string the writer answered (register / lookup)
-    rhandle = {}          # id -> handle string the reader presented
-    written, presented = 0, 0
-    notalive_keys = set()
-    keyed = ty in KEYED
+    whandle = {}          # (writer, id) -> handle string the writer answered (register / lookup)
+    rhandle = {}          # (reader, id) -> handle string the reader presented
+    written = {}          # topic name -> number of accepted writes
+    written_keys = {}     # topic name -> set of ids written
+    presented = {}        # reader -> number of valid samples presented
+    notalive = {}         # topic name -> ids disposed / unregistered
+    bg = {}               # tag -> (writer, id)
 
     def v(i, what):
         viol.append({"what": what, "at": i, "cause": None})
+
+    wkeys, wgone = {}, {}   # writer -> ids it accepted a write / register of; ids it unregistered
+
+    def accepted(w, k):
+        wkeys.setdefault(w, set()).add(k)
+        wgone.get(w, set()).discard(k)
+        tn = writers[w][0]
+        written[tn] = written.get(tn, 0) + 1
+        written_keys.setdefault(tn, set()).add(k)
 
     for i, (l, o) in enumerate(zip(case.lines, out)):
         t = l.split()
@@ -153,56 +248,78 @@ def c11_e2e_oracle(case, out):
             break
         if o == "POISONED":
             break
-        if t[0] in ("register", "lookup") and is_ok(o):
-            k = int(t[2])
+        op = t[0]
+        if op in ("register", "lookup") and is_ok(o) and t[1] in writers:
+            w, k, ty = t[1], int(t[2]), writers[t[1]][1]
             h = o.split()[1]
             if h == "none":
+                if op == "lookup" and k in wkeys.get(w, set()) and k not in wgone.get(w, set()):
+                    v(i, f"{l}: the writer does not know the instance of key {k} although it accepted a write of it")
                 continue
             if h != f"h({k})":
                 v(i, f"{l}: the writer's handle {h} is not the key layout of id {k} for type {ty} ({expected_handle(ty, k)})")
-            if k in whandle and whandle[k] != h:
-                v(i, f"{l}: the writer answered {h}, earlier {whandle[k]} for the same key")
-            whandle[k] = h
-        elif t[0] == "write" and is_ok(o):
-            written += 1
-        elif t[0] in ("dispose", "unregister") and is_ok(o):
-            notalive_keys.add(int(t[2]))
-        elif t[0] == "take" and is_ok(o):
+            if (w, k) in whandle and whandle[(w, k)] != h:
+                v(i, f"{l}: the writer answered {h}, earlier {whandle[(w, k)]} for the same key")
+            whandle[(w, k)] = h
+        elif op == "write" and is_ok(o) and t[1] in writers:
+            accepted(t[1], int(t[2]))
+        elif op == "write-bg" and t[1] in writers:
+            tag = next((x[4:] for x in t if x.startswith("tag=")), "")
+            bg[tag] = (t[1], int(t[2]))
+        elif op == "join" and len(t) == 2 and t[1] in bg:
+            if is_ok(o):
+                accepted(*bg[t[1]])
+        elif op in ("dispose", "unregister") and is_ok(o) and t[1] in writers:
+            notalive.setdefault(writers[t[1]][0], set()).add(int(t[2]))
+            if op == "unregister":
+                wgone.setdefault(t[1], set()).add(int(t[2]))
+        elif op == "take" and is_ok(o) and t[1] in readers:
+            rd, (tn, ty) = t[1], readers[t[1]]
+            keyed = ty in KEYED
             for s in parse_samples(o) or []:
                 inst = s["inst"]
                 if s["valid"] and s["data"] != "-":
-                    presented += 1
-                    ks = s["data"].split(":")[0]
+                    presented[rd] = presented.get(rd, 0) + 1
                     if not keyed:
                         if inst != "h(nokey)":
-                            v(i, f"take: a sample of the keyless type {ty} is presented with handle {inst}")
+                            v(i, f"take {rd}: a sample of the keyless type {ty} is presented with handle {inst}")
                         continue
-                    k = int(ks.split("+")[0])
-                    want = whandle.get(k, f"h({k})")
+                    k = int(s["data"].split(":")[0].split("+")[0])
+                    want = f"h({k})"
                     if inst != want:
-                        v(i, f"take: sample of key {k} ({s['data'][:40]}) is presented with instance handle {inst}, the writer's handle "
-                             f"for that key is {want} (expected bytes {expected_handle(ty, k)})")
-                    if k in rhandle and rhandle[k] != inst:
-                        v(i, f"take: two samples of key {k} are presented with different handles {rhandle[k]} and {inst}")
-                    for k2, h2 in rhandle.items():
-                        if k2 != k and h2 == inst:
-                            v(i, f"take: samples of the different keys {k2} and {k} share the handle {inst}")
-                    rhandle.setdefault(k, inst)
+                        v(i, f"take {rd}: sample of key {k} ({s['data'][:40]}) is presented with instance handle {inst}, the writer's "
+                             f"handle for that key is {want} (expected bytes {expected_handle(ty, k)})")
+                    if (rd, k) in rhandle and rhandle[(rd, k)] != inst:
+                        v(i, f"take {rd}: two samples of key {k} are presented with different handles {rhandle[(rd, k)]} and {inst}")
+                    for (r2, k2), h2 in rhandle.items():
+                        if r2 == rd and k2 != k and h2 == inst:
+                            v(i, f"take {rd}: samples of the different keys {k2} and {k} share the handle {inst}")
+                    rhandle.setdefault((rd, k), inst)
                 else:
                     # key-only sample (dispose / unregister): its handle must be the handle of one of the keys that were
-                    # disposed / unregistered
-                    if keyed and inst not in {f"h({k})" for k in notalive_keys}:
-                        v(i, f"take: a not-alive sample is presented with handle {inst}, which is not the handle of any disposed / "
-                             f"unregistered key {sorted(notalive_keys)}")
-    if not viol and written != presented and out and out[-1] not in ("POISONED",):
-        viol.append({"what": f"{written} samples were written but {presented} presented after the final take "
-                             "(a change whose handle cannot be derived is skipped by the reader)", "at": len(case.lines) - 1,
-                     "cause": None})
+                    # disposed / unregistered on that topic
+                    ks = notalive.get(tn, set())
+                    if keyed and inst not in {f"h({k})" for k in ks}:
+                        v(i, f"take {rd}: a not-alive sample is presented with handle {inst}, which is not the handle of any disposed / "
+                             f"unregistered key {sorted(ks)}")
+    if not viol and out and out[-1] != "POISONED":
+        for rd, (tn, ty) in readers.items():
+            if written.get(tn, 0) != presented.get(rd, 0):
+                viol.append({"what": f"{written.get(tn, 0)} samples were written on topic {tn} but {presented.get(rd, 0)} presented by "
+                                     f"reader {rd} after the final take (a change whose handle cannot be derived is skipped)",
+                             "at": len(case.lines) - 1, "cause": None})
+            inst_seen = {h for (r2, _), h in rhandle.items() if r2 == rd}
+            if ty in KEYED and len(inst_seen) > len(written_keys.get(tn, set())):
+                viol.append({"what": f"reader {rd} presents {len(inst_seen)} instances, only {len(written_keys.get(tn, set()))} keys were written",
+                             "at": len(case.lines) - 1, "cause": None})
     return viol
 
 
 def c11_e2e_nontrivial(case, out):
     """at least two keys (or a keyless type) and at least one sample whose payload exceeds the fragment size"""
+    if case.meta.get("family") == "blocked" or sum(1 for l in case.lines if l.startswith("write-bg ")) >= 2:
+        # several writers blocked at once: at least two background writes that were joined with `ok`
+        return sum(1 for l, o in zip(case.lines, out) if l.startswith("join ") and o == "ok") >= 2
     frag = int(case.lines[0].split("=")[1])
     big = False
     keys = set()
